@@ -43,6 +43,8 @@ def to_erg(prog, prelude=True):
             L.append(f"{v} = v{a} {op} v{b}")
         elif k == "interp":
             L.append(f'{v} = "\\{{v{a}}}' + erg_str(s)[1:])
+        elif k == "uprint":
+            L.append(f"u{n} = print! {erg_str(s)}")
         elif k == "print":
             L.append(f"print! v{a}")
         elif k == "ifp":
@@ -86,6 +88,8 @@ def to_py(prog):
             L.append(f"{v} = v{a} {op} v{b}")
         elif k == "interp":
             L.append(f"{v} = str(v{a}) + {s!r}")
+        elif k == "uprint":
+            L.append(f"u{n} = print({s!r})")
         elif k == "print":
             L.append(f"print(v{a})")
         elif k == "ifp":
